@@ -8,15 +8,55 @@ import runner
 
 
 def has_cycle(n, succ):
+    """iterative three-colour search (graphs here may be thousands of nodes deep)"""
     color = [0] * n
-    def dfs(u):
-        color[u] = 1
-        for v in succ[u]:
-            if color[v] == 1 or (color[v] == 0 and dfs(v)):
-                return True
-        color[u] = 2
-        return False
-    return any(color[u] == 0 and dfs(u) for u in range(n))
+    for root in range(n):
+        if color[root]:
+            continue
+        color[root] = 1
+        stack = [(root, 0)]
+        while stack:
+            u, i = stack.pop()
+            if i < len(succ[u]):
+                stack.append((u, i + 1))
+                v = succ[u][i]
+                if color[v] == 1:
+                    return True
+                if color[v] == 0:
+                    color[v] = 1
+                    stack.append((v, 0))
+            else:
+                color[u] = 2
+    return False
+
+
+MODEL_MAX = 2100
+
+
+def big_graphs(tier, seed):
+    """structured graphs whose size or depth crosses the thresholds at which fixed-width counters, pre-sized buffers
+    and small-case fast paths change behaviour: long chains, one back edge somewhere, wide fans, big rings"""
+    r = random.Random(seed * 31 + 5)
+    sizes = [100, 127, 128, 129, 255, 256, 257, 300, 511, 512, 513, 1023, 1025]
+    if tier != "quick":
+        sizes += [2047, 2049, 4100, 33000, 66000]
+    out = []
+    for n in sizes:
+        chain = [[u + 1] if u + 1 < n else [] for u in range(n)]
+        out.append((n, chain))                                                   # a chain walked from node 0
+        out.append((n, [[u - 1] if u else [] for u in range(n)]))                # the same chain numbered backwards
+        for j in sorted({0, 1, n // 2, n - 2, 126, 127, 128, 254, 255, 256, 257} & set(range(n - 1))):
+            g = [list(x) for x in chain]
+            g[n - 1] = [j]                                                       # ... closed by one edge back to node j
+            out.append((n, g))
+        g = [list(x) for x in chain]
+        j, k = sorted(r.sample(range(n), 2))
+        g[k] = g[k] + [j]                                                        # a back edge somewhere in the middle
+        out.append((n, g))
+        if n <= 4100:
+            out.append((n, [list(range(1, n))] + [[] for _ in range(n - 1)]))    # a fan
+            out.append((n, [list(range(1, n))] + [[n - 1] if u < n - 1 else [0] for u in range(1, n)]))   # fan, sink back to the hub
+    return out
 
 
 def judge(n, succ, ans):
@@ -49,7 +89,9 @@ def work(args):
     def one(n, succ):
         nonlocal count, cyclic
         req = json.dumps({"kind": "graph", "n": n, "succ": succ}, separators=(",", ":"))
-        ma, ia = model.ask(req), impl.ask(req)
+        ia = impl.ask(req)
+        # the model's list-based search is quadratic: beyond MODEL_MAX nodes the implementation's answer is only judged on its own
+        ma = model.ask(req) if n <= MODEL_MAX else ia
         count += 1
         cyclic += 0 if ia.get("ok") else 1
         j = judge(n, succ, ia)
@@ -63,6 +105,11 @@ def work(args):
         lo, hi = b
         for bits in range(lo, hi):
             one(n, [[v for v in range(n) if bits >> (u * n + v) & 1] for u in range(n)])
+            if len(fails) > 3:
+                break
+    elif kind == "big":
+        for (n, succ) in a:
+            one(n, succ)
             if len(fails) > 3:
                 break
     else:
@@ -90,9 +137,12 @@ def run(tier, seed):
     tasks += [("ex", 4, (lo, lo + step), 0) for lo in range(0, 65536, step)]
     nrand, maxn = (2000, 14) if tier == "quick" else (60000, 40)
     tasks += [("rand", nrand // 16, maxn, seed * 7919 + k) for k in range(16)]
+    big = big_graphs(tier, seed)
+    tasks += [("big", big[k::8], None, 0) for k in range(8)]
     with mp.Pool(16) as pool:
         res = pool.map(work, tasks)
     count = sum(r[0] for r in res)
     cyclic = sum(r[1] for r in res)
     fails = [f for r in res for f in r[2]]
-    return {"graphs": count, "cyclic": cyclic, "exhaustive_upto_nodes": 4, "random_graphs": nrand, "random_max_nodes": maxn}, fails
+    return {"graphs": count, "cyclic": cyclic, "exhaustive_upto_nodes": 4, "random_graphs": nrand, "random_max_nodes": maxn,
+            "structured_large_graphs": len(big), "largest_graph_nodes": max(n for n, _ in big)}, fails
